@@ -667,7 +667,7 @@ func TestProp(t *testing.T) {
 	}
 	codes = append(codes, 100, 127, 200, 1000)
 	r.Rule(fmt.Sprintf("reply: exchange {AS,TGS} x etype (6) x credential {password, keytab} x salted x addresses x one perturbation from a catalogue of %d (nonce +-1/stale, cname, crealm, sname, srealm, ticket realm/sname, address lists, authtime/starttime inside/outside the skew, other key, other usage, wrong message type, other exchange's reply, tampered/truncated ciphertext, truncated reply) or a KRB-ERROR with any code; fast path (Unmarshal+Verify) and end-to-end through Client.Login/GetServiceTicket over loopback; non-trivial = any perturbed reply", len(names)))
-	r.Rapid("reply", r.N(2500, 20000), func(t *rapid.T) {
+	r.Rapid("reply", r.N(2500, 60000), func(t *rapid.T) {
 		c := Case{Exchange: rapid.SampledFrom([]string{"AS", "TGS"}).Draw(t, "exchange"), EType: rapid.SampledFrom(ref.ETypes).Draw(t, "etype"),
 			Cred: rapid.SampledFrom([]string{"password", "keytab"}).Draw(t, "cred"), Salted: rapid.Bool().Draw(t, "salted"), Addrs: rapid.Bool().Draw(t, "addrs"),
 			Seed: rapid.Uint64Range(1, 1<<40).Draw(t, "seed"), E2E: rapid.IntRange(0, 19).Draw(t, "e2e") == 0}
